@@ -172,6 +172,13 @@ class _Norm(ast.NodeTransformer):
             return ast.Constant(value=not _truth(n.operand))
         return n
 
+    def visit_Attribute(self, n):
+        # an attribute of a literal ((1).real): the compiler evaluates it when it folds constants
+        self.generic_visit(n)
+        if _is_const(n.value) and n.value.value is not Ellipsis:
+            return _try_eval(n)
+        return n
+
     def visit_BinOp(self, n):
         self.generic_visit(n)
         if _is_const(n.left) and _is_const(n.right):
